@@ -130,12 +130,15 @@ fn run(mode: &str, nthreads: usize, ngens: usize, iters: usize) -> String {
     server.set_tsig_keys(keysets[0].clone());
     let seq = Arc::new(AtomicU64::new(1));
     let stop = Arc::new(AtomicBool::new(false));
+    // number of completed calls: the swapper paces itself by the queriers' PROGRESS (not by wall time),
+    // so swaps and calls interleave however loaded the machine is
+    let done = Arc::new(AtomicU64::new(0));
     let use_keys = mode != "cat";
     let swap_cat = mode != "keys";
 
     let workers: Vec<_> = (0..nthreads)
         .map(|t| {
-            let (server, seq, stop) = (server.clone(), seq.clone(), stop.clone());
+            let (server, seq, stop, done) = (server.clone(), seq.clone(), stop.clone(), done.clone());
             std::thread::spawn(move || {
                 let mut obs = Vec::new();
                 let mut i = 0usize;
@@ -148,9 +151,10 @@ fn run(mode: &str, nthreads: usize, ngens: usize, iters: usize) -> String {
                     let resp = call(&server, &msg);
                     let end = seq.fetch_add(1, Ordering::SeqCst);
                     obs.push(Obs { q, signed, start, end, resp });
+                    done.fetch_add(1, Ordering::SeqCst);
                     i += 1;
-                    if i > iters * 50 {
-                        break;
+                    if i > iters * 5000 {
+                        break; // safety net only; the swapper sets `stop` long before
                     }
                 }
                 obs
@@ -164,7 +168,13 @@ fn run(mode: &str, nthreads: usize, ngens: usize, iters: usize) -> String {
     let mut key_call = vec![0u64; ngens];
     let mut key_ret = vec![0u64; ngens];
     for g in 1..ngens {
-        std::thread::sleep(std::time::Duration::from_micros(300));
+        // wait until the queriers have completed a few more calls (at most 2 s, so a stuck querier
+        // cannot hang the run)
+        let target = done.load(Ordering::SeqCst) + nthreads as u64;
+        let waited = std::time::Instant::now();
+        while done.load(Ordering::SeqCst) < target && waited.elapsed() < std::time::Duration::from_secs(2) {
+            std::thread::yield_now();
+        }
         if swap_cat {
             cat_call[g] = seq.fetch_add(1, Ordering::SeqCst);
             server.set_catalog(cats[g].clone());
@@ -177,6 +187,15 @@ fn run(mode: &str, nthreads: usize, ngens: usize, iters: usize) -> String {
         }
     }
     stop.store(true, Ordering::SeqCst);
+    // a request handled after the last replacement returned must use the last catalog
+    if swap_cat {
+        let q = 0usize;
+        let resp = call(&server, &query(q as u16 + 1, q, None));
+        match resp {
+            Some(r) if r == reference[ngens - 1][q] => (),
+            _ => return "bad request-after-last-swap-did-not-use-the-new-catalog".to_string(),
+        }
+    }
     let last_cat = if swap_cat { ngens - 1 } else { 0 };
     let last_key = if use_keys { ngens - 1 } else { 0 };
 
